@@ -707,7 +707,14 @@ impl Compiler {
         let block_result = self.compile_block(expressions, ctx.with_register(result_register))?;
 
         if let Some(block_register) = block_result.register {
-            if !self.frame().last_node_was_return {
+            // The implicit return can only be skipped when the frame's last expression itself is
+            // a return. `last_node_was_return` refers to the most recently compiled node, which
+            // may be a return nested in a branch of the last expression (e.g. `if x` / `return`),
+            // in which case execution can still reach the end of the frame.
+            let last_expression_is_return = expressions
+                .last()
+                .is_some_and(|last| matches!(ctx.node(*last), Node::Return(_)));
+            if !(self.frame().last_node_was_return && last_expression_is_return) {
                 if !is_generator {
                     self.compile_check_output_type(
                         block_register,
